@@ -1935,6 +1935,9 @@ impl<'a> CompiledPredicate<'a> {
 pub struct CompiledProjection<'a> {
     expressions: Vec<&'a crate::sql::ast::Expr<'a>>,
     column_map: FastHashMap<String, usize>,
+    /// expression i is column `direct[i]` of the input row (a GROUP BY expression that the
+    /// aggregation below has already evaluated)
+    direct: Vec<Option<usize>>,
 }
 
 impl<'a> CompiledProjection<'a> {
@@ -1945,13 +1948,23 @@ impl<'a> CompiledProjection<'a> {
         Self {
             expressions,
             column_map: column_map.into_iter().collect(),
+            direct: Vec::new(),
         }
+    }
+
+    pub fn with_direct(mut self, direct: Vec<Option<usize>>) -> Self {
+        self.direct = direct;
+        self
     }
 
     pub fn evaluate(&self, row: &ExecutorRow<'a>) -> Vec<Option<Value<'a>>> {
         self.expressions
             .iter()
-            .map(|expr| {
+            .enumerate()
+            .map(|(i, expr)| {
+                if let Some(Some(idx)) = self.direct.get(i) {
+                    return row.get(*idx).cloned();
+                }
                 let pred = CompiledPredicate::from_hashmap(expr, &self.column_map);
                 pred.evaluate_to_value(row)
             })
